@@ -1,4 +1,5 @@
 import AaVerif.Aa.FromLog
+import AaVerif.Aa.Meaning
 import AaVerif.Generated.AaTables
 /-!
 # C16 — rules generated from logs cover the logged access
@@ -149,5 +150,21 @@ theorem C16_mount_fields (l : Log) (mc : List Fld) (hm : mountConds T l = some m
 example : addRule T m2a [("apparmor".toList, "DENIED".toList), ("operation".toList, "open".toList), ("class".toList, "file".toList),
     ("name".toList, "/etc/x".toList), ("requested_mask".toList, "rwc".toList), ("fsuid".toList, "1000".toList), ("ouid".toList, "1000".toList)]
   = some [{ kind := "file", flds := [.b true, .s "/etc/x".toList, .l [['r'], ['w']], .s []] }] := by decide +kernel
+
+/-- **A covered access is not discarded by the merge** (aa-log merges, sorts and formats the rules of a
+profile before printing them): whatever (kind, qualifier, subject, permission) fact one of the rules
+built from the records grants, the merged list still grants it — and grants nothing that no rule
+granted. For every list of rules over `Dom10` (rules built from kernel records name their permissions
+and hold the record's strings; records with upper-case letters or blanks in a name fall in C10's known
+classes). -/
+theorem C16_merge_keeps_coverage (l : List (Option Rule))
+    (hdom : ∀ o ∈ l, DomO (Dom10 T.stringAlphabet) o) (r : Rule) (hr : some r ∈ l) (f : Fact) (hf : den r f) :
+    ∃ r' , some r' ∈ mergeRules T l ∧ den r' f := by
+  have hal : ∀ c ∈ T.stringAlphabet, lowerC c = c := by decide +kernel
+  have := (mergeRules_meaning T hal l hdom f).mpr ⟨some r, hr, hf⟩
+  obtain ⟨o, ho, hd⟩ := this
+  cases o with
+  | none => exact absurd hd (by simp [denO])
+  | some r' => exact ⟨r', ho, hd⟩
 
 end C16
